@@ -29,8 +29,9 @@ type Delivery struct {
 	Region string `json:"region,omitempty"` // flip: id flags counts question body sigowner sighdr sigfixed signer signature
 	Frac   int    `json:"frac,omitempty"`   // position inside the region / message, per mille
 	Bit    int    `json:"bit,omitempty"`
-	Time   string `json:"time"`         // before | incept | mid | expire | after | at
-	At     int    `json:"at,omitempty"` // seconds after inception for "at"
+	Time   string `json:"time"`              // before | incept | mid | expire | after | at
+	At     int    `json:"at,omitempty"`      // seconds after inception for "at"
+	FracMs int    `json:"frac_ms,omitempty"` // the verification happens this many milliseconds into that second
 }
 
 type Scenario struct {
@@ -69,7 +70,11 @@ func Gen(seed uint64, tier string) any {
 			sc.Msg.Answer = append(sc.Msg.Answer, gen.RRRef{I: core.Pick(r, 11, 12, 13, 9, 10), Z: 0})
 		}
 	case 2:
-		sc.Msg.Pad = core.Pick(r, 100, 1000, 20000, 60000)
+		// the last two land within a SIG record's length of the 64 KiB limit (uncompressed / compressed owner names)
+		sc.Msg.Pad = core.Pick(r, 100, 1000, 20000, 60000, 56700+r.IntN(800), 60700+r.IntN(900))
+		if core.Chance(r, 50) {
+			sc.Msg.Compress = true
+		}
 	}
 	sc.Key = r.IntN(12)
 	if core.Chance(r, 4) {
@@ -111,11 +116,16 @@ func Gen(seed uint64, tier string) any {
 			d.Fault = "parentname"
 		case x < 94:
 			d.Fault = "damagedkey"
-		case x < 97:
+		case x < 96:
 			d.Fault = "sweep"
+		case x < 97:
+			d.Fault = "rollover"
 		}
 		if d.Fault != "none" && core.Chance(r, 10) {
 			d.Time = core.Pick(r, "incept", "expire")
+		}
+		if core.Chance(r, 30) {
+			d.FracMs = core.Pick(r, 1, 250, 500, 999)
 		}
 		sc.Deliveries = append(sc.Deliveries, d)
 	}
@@ -298,6 +308,11 @@ func runIn(sc *Scenario, res *core.Result, verbose bool) {
 	// --- Q1: signing succeeds, output = packed message || one SIG, ARCOUNT+1
 	signed, err := sig.Sign(kp.priv, m)
 	res.Bump("oracle.Q1_sign")
+	// signing, successful or not, leaves the caller's message as it was
+	if after, aerr := m.Pack(); aerr != nil || string(after) != string(packed) {
+		res.Fail("Q1", "sign-changed-message", "after SIG.Sign (err=%v) the caller's message packs to %d octets, before it was %d: Sign altered the message it was given", err, len(after), len(packed))
+		return
+	}
 	sigRRLen := 1 + 10 + 18 + len(kp.key.Hdr.Name) + 1 + 520 // room for the largest signature (RSA-4096: 512 octets)
 	if err != nil {
 		if len(packed)+sigRRLen > 65535 {
@@ -392,7 +407,11 @@ func runIn(sc *Scenario, res *core.Result, verbose bool) {
 	for _, p := range plan {
 		d := p.d
 		if now := time.Now().Unix(); p.at > now {
-			time.Sleep(time.Duration(p.at-now) * time.Second)
+			time.Sleep(time.Duration(p.at-now)*time.Second - time.Duration(time.Now().Nanosecond()))
+		}
+		if d.FracMs > 0 && time.Now().Nanosecond()/1e6 < d.FracMs {
+			// somewhere inside that second, not on the tick
+			time.Sleep(time.Duration(d.FracMs)*time.Millisecond - time.Duration(time.Now().Nanosecond()))
 		}
 		now := uint32(time.Now().Unix())
 		inWindow := now >= incept && now <= expire
@@ -490,6 +509,18 @@ func runIn(sc *Scenario, res *core.Result, verbose bool) {
 			key = kp.other
 			tampered = true
 			res.Bump("fault.key_other_owner")
+		case "rollover":
+			// one KEY object: used for a good verification first, then its key material is
+			// replaced in place (a rollover) by another key of the same algorithm
+			rk := dns.Copy(kp.key).(*dns.KEY)
+			if _, pan := verify(sig, rk, append([]byte(nil), signed...)); pan != "" {
+				res.Fail("Q4", "verify-panic:"+firstLine(pan), "SIG.Verify panicked: %s", pan)
+				return
+			}
+			rk.PublicKey = keys[(sc.Key^1)%len(keys)].key.PublicKey
+			key = rk
+			tampered = true
+			res.Bump("fault.key_rolled_over_in_place")
 		case "damagedkey":
 			// the right owner, but the key material does not parse (cut short / wrong size for the algorithm): not the matching key
 			dk := dns.Copy(kp.key).(*dns.KEY)
